@@ -1,4 +1,5 @@
 import HidVerif.Hid.TypecheckStmt
+import HidVerif.Proofs.TypeSoundProg
 /-!
 # C07 — the typechecker accepts exactly the well-typed programs
 
@@ -102,5 +103,55 @@ theorem const_targets : isAssignableTE (.var [] .int true) = some true
     ∧ isAssignableTE (.index (.var [] (.arr .int false) true) (.intv 0 false true)) = some false
     ∧ isAssignableTE (.intv 5 false true) = none := by
   simp [isAssignableTE, typeOf]
+
+/-! ### type soundness: every accepted program obeys the rules (Proofs/TypeSound*.lean)
+
+`wtProg` (Hid/TypeRules.lean) is the conjunction of the documented rules, node by node: a call node carries arguments
+of *exactly* the parameter types of an overload declared with that name and flavour, and has its return type; operands
+of arithmetic and comparisons are `int`, of `and`/`or`/`not` and every `if`/`while` condition `bool`; the two sides of an
+assignment have the same type and the target is a non-const variable or an element of a non-const array (never a
+string element); a declaration's initialiser has exactly the declared type; `return` carries a value exactly when the
+function is not `empty`, of exactly the function's type; an array literal has a scalar, non-`empty` element type that
+every element has (after an explicit or implicit cast) or can be coerced to; cast nodes connect only the pairs of types
+of the cast table; `??` has two operands of the same `byte`/`int`/`bool` type; no type is an array of arrays.
+Rejection is the contrapositive: a source whose only possible typed tree breaks one of these is not accepted. -/
+
+/-- for every source text, whatever the parser and then the typechecker accept has a well-typed tree -/
+theorem accepted_programs_are_well_typed (lint : Bool) (src : List HidVerif.Hid.Lex.Line) (p : HidVerif.Hid.Parse.PProgram)
+    (tp : TProgram) (hparse : HidVerif.Hid.Parse.parse src = .ok p) (htc : tcProgram lint p = .ok tp) : wtProg tp = true :=
+  accepted_well_typed lint src p tp hparse htc
+
+/-- the expression level, for any environment in order: the typed tree of an accepted expression is well typed -/
+theorem accepted_expressions_are_well_typed (env : Env) (henv : EnvOK env) (e : HidVerif.Hid.Parse.PExpr) (te : TE)
+    (hty : ptyE e = true) (h : tcExpr env e = .ok te) : wtE env.funcs te = true := tcExpr_wt env henv e te hty h
+
+/-- an implicit or explicit cast that succeeds yields a tree of exactly the requested type -/
+theorem cast_has_target_type (fs : List FuncSig) (e e' : TE) (new : Ty) (impl : Bool) (hw : wtE fs e = true)
+    (hn : HidVerif.Hid.Parse.tgtOK new = true) (h : cast e new impl = .ok e') : typeOf e' = new :=
+  (cast_ok fs e new impl e' hw hn h).2
+
+/-- the rules are not vacuous: ill-typed trees are told apart -/
+example : wtE [] (.arith .add (.boolv true) (.intv 1 false true) false) = false
+    ∧ wtS [] .int (.assign (.var [] .int true) (.intv 1 false true)) = false
+    ∧ wtS [] .int (.assign (.index (.var [] .string false) (.intv 0 false true)) (.intv 1 true true)) = false
+    ∧ wtS [] .int (.assign (.var [] .byte false) (.var [] .int false)) = false
+    ∧ wtS [] .empty (.ret (some (.intv 1 false true))) = false
+    ∧ wtS [] .int (.ret none) = false
+    ∧ wtE [] (.call [] .none [] [] .empty) = false
+    ∧ wtE [] (.arrlit [.arrlit [] (.arr .int true) true] (.arr (.arr .int true) true) true) = false
+    ∧ wtS [] .int (.assign (.var [] .byte false) (.intv 1 true true)) = true := by
+  decide
+
+/-- … and the theorem's hypotheses are met by concrete sources: these parse, typecheck and (as the theorem says) are
+well typed; the third is rejected by the typechecker -/
+example :
+    let line (s : String) : List HidVerif.Hid.Lex.Line := [s.toList.map Char.toNat]
+    let run (s : String) : Option Bool := match HidVerif.Hid.Parse.parse (line s) with
+      | .ok p => (match tcProgram false p with | .ok tp => some (wtProg tp) | .error _ => none)
+      | .error _ => none
+    run "int f(byte b) { return b + 1; } empty @is_you() { int x = f(3); byte[] a = [1, 2, x is byte]; a[0] += 2; writeln(a.length); }" = some true ∧
+    run "const int g = 5; empty @is_you() { bool b = g > 2 and not (g == 7); if (b) { write(\"x\"); } }" = some true ∧
+    run "empty @is_you() { byte b = 1; int i = 300; b = i; }" = none := by
+  refine ⟨by decide +kernel, by decide +kernel, by decide +kernel⟩
 
 end HidVerif.Props.C07
